@@ -318,14 +318,16 @@ def step (op : Opts) (s : TS) (as : List Action) : TS :=
   afterActions op s (as.foldl (actStep op) s)
 
 /-- What fzf prints and its exit status when the session ends (`Terminal.output`, exit codes):
-    `--print-query` line, queued `print` texts, then the selection in selection order or else the
-    current line. -/
-def exitOutput (printQuery : Bool) (lineOf : Nat → Str) (queryBytes : Str) (s : TS) : Nat × List Str :=
+    `--print-query` line, the `--expect` line, queued `print` texts, then the selection in
+    selection order or else the current line. -/
+def exitOutput (printQuery : Bool) (lineOf : Nat → Str) (queryBytes : Str) (s : TS) (expectLine : Option Str := none) :
+    Nat × List Str :=
   match s.outcome with
   | some .abort => (130, [])
   | some .printQuery => (0, [queryBytes])
   | some .accept =>
-    let head := (if printQuery then [queryBytes] else []) ++ s.printQueue
+    -- with --expect a line naming the key that ended the session (empty for any other way of accepting)
+    let head := (if printQuery then [queryBytes] else []) ++ expectLine.toList ++ s.printQueue
     let body := if s.selected.length > 0 then s.selected.map lineOf
       else match currentItem s with | some i => [lineOf i] | none => []
     (if body.isEmpty then 1 else 0, head ++ body)
